@@ -15,7 +15,8 @@ from . import c05_gen as G
 
 VALIDATING = {"validate", "call", "model_validate", "model_call", "check_input",
               "check_output", "check_types", "validate_cfg", "derived_validate",
-              "probe", "coerce_dtype", "get_dtypes", "call_check"}
+              "probe", "coerce_dtype", "get_dtypes", "call_check",
+              "reuse_validate", "overlap"}
 
 # weights: cheap, state-touching ops dominate; hypothesis ops are rare
 _W = [
@@ -30,8 +31,17 @@ _W = [
     ("check_input", 2), ("check_output", 2),
     ("model_validate", 6), ("model_call", 2), ("model_to_schema", 3),
     ("model_to_yaml", 2), ("model_misc", 5), ("check_types", 3),
-    ("strategy", 1), ("example", 1), ("model_example", 0.5),
+    ("strategy", 1), ("example", 1.5), ("model_example", 0.5),
+    # histories that let the SAME data object meet the SAME schema object again
+    ("reuse_validate", 26), ("reuse_edit", 5),
+    # two overlapping validations of one schema object (deterministic scheduler)
+    ("overlap", 1.5),
 ]
+# dtype-less columns: drawing data is the only operation that resolves their
+# dtype; on such schemas the hypothesis operations are made frequent (they are
+# cheap there: the unchanged tree refuses the draw with SchemaDefinitionError)
+HYP_BOOST_DTYPE_LESS = 10
+REUSE_VIA = ["validate"] * 7 + ["call", "check_input", "check_output"]
 MODEL_ONLY = {"model_validate", "model_call", "model_to_schema", "model_to_yaml",
               "model_misc", "check_types", "model_example"}
 FRAME_ONLY = {"to_yaml", "to_json", "to_script", "yaml_roundtrip_eq", "get_dtypes",
@@ -40,7 +50,7 @@ TRANSFORMS = ["add_columns", "remove_columns", "update_column", "update_columns"
               "rename_columns", "select_columns", "set_index", "reset_index"]
 
 
-def gen_op(rng, built, nprobes, allow_hypothesis=True):
+def gen_op(rng, built, nprobes, allow_hypothesis=True, allow_threads=True):
     spec = built.spec
     kind, backend = spec["kind"], spec["backend"]
     is_frame = kind in ("frame", "model")
@@ -55,6 +65,11 @@ def gen_op(rng, built, nprobes, allow_hypothesis=True):
             continue
         if n == "properties" and kind != "column":
             continue
+        if n == "overlap" and not allow_threads:
+            continue
+        if n in ("strategy", "example") and any(
+                c.get("no_dtype") for c in spec["columns"]):
+            w = w * HYP_BOOST_DTYPE_LESS
         names.append(n)
         weights.append(w * 2.5 if n in MODEL_ONLY else w)
     name = rng.choices(names, weights)[0]
@@ -87,7 +102,80 @@ def gen_op(rng, built, nprobes, allow_hypothesis=True):
         op["size"] = rng.choice([1, 2])
     if name == "model_misc":
         op["which"] = rng.choice(["get_metadata", "to_json_schema", "empty", "str"])
+    if name == "reuse_validate":
+        op.update(gen_reuse(rng, kind, spec))
+    if name == "reuse_edit":
+        op["slot"] = rng.randrange(1000)
+        op["prefer"] = rng.choice(["met", "met", "derived", "last", "any"])
+        op["pick"] = rng.randrange(1000)
+        op["how"] = rng.choice(["bad", "bad", "null", "good"])
+    if name == "overlap":
+        op.update(gen_overlap(rng, nprobes, kind, spec))
     return op
+
+
+def _drops_rows(spec):
+    return bool(spec and (spec.get("drop_invalid_rows") or any(
+        c.get("drop_invalid_rows") for c in spec["columns"])))
+
+
+def gen_reuse(rng, kind, spec=None):
+    """One validation of a LIVE data object of the case (never cloned)."""
+    op = _gen_reuse(rng, kind)
+    # drop_invalid_rows needs lazy=True (else SchemaDefinitionError): mostly
+    # ask for the mode in which such a schema has a verdict at all
+    if _drops_rows(spec) and rng.random() < 0.85:
+        op["lazy"] = True
+    return op
+
+
+def _gen_reuse(rng, kind):
+    op = {"slot": rng.randrange(1000),
+          "prefer": rng.choice(["met", "met", "derived", "derived", "last", "last",
+                                "probe", "any"]),
+          "lazy": rng.random() < 0.45,
+          "inplace": rng.random() < 0.55}
+    via = rng.choice(REUSE_VIA)
+    if kind == "model":
+        via = rng.choice(REUSE_VIA + ["model_validate"] * 4 + ["check_types"] * 2)
+    elif kind not in ("frame",) and via in ("check_input", "check_output"):
+        via = "validate"
+    op["via"] = via
+    r = rng.random()
+    if True:
+        if r < 0.1:
+            op["head"] = rng.choice([1, 2, 5])
+        elif r < 0.16:
+            op["tail"] = rng.choice([1, 2])
+        elif r < 0.22:
+            op["sample"], op["random_state"] = rng.choice([1, 2]), 7
+    return op
+
+
+OVERLAP_WHAT = ["validate"] * 12 + ["coerce_dtype", "coerce_dtype", "get_dtypes",
+                                      "to_yaml", "to_json", "to_script", "statistics",
+                                      "str", "deepcopy", "eq_twin"]
+
+
+def gen_overlap(rng, nprobes, kind="frame", spec=None):
+    op = _gen_overlap(rng, nprobes, kind)
+    if _drops_rows(spec) and rng.random() < 0.85:
+        op["lazy"] = op["lazy2"] = True
+    return op
+
+
+def _gen_overlap(rng, nprobes, kind="frame"):
+    p = rng.randrange(nprobes)
+    what = rng.choice(OVERLAP_WHAT)
+    if what in FRAME_ONLY and kind not in ("frame", "model"):
+        what = "validate"
+    return {"what": what, "probe": p,
+            "probe2": p if rng.random() < 0.65 else rng.randrange(nprobes),
+            "lazy": rng.random() < 0.4, "lazy2": rng.random() < 0.4,
+            # which of the scouted points thread A is parked at: the w-th place
+            # where the schema is temporarily modified, else the k-th line
+            "w": 0 if rng.random() < 0.6 else rng.randrange(1000),
+            "k": rng.randrange(100000)}
 
 
 # --------------------------------------------------------------------------
@@ -244,6 +332,12 @@ def apply(op, built, probes):
             return df
         f.__annotations__ = {"df": DataFrame[M], "return": DataFrame[M]}
         pa.check_types(f)(frame)
+    elif name == "reuse_validate":
+        return "reuse:" + apply_reuse(op, built, probes)["sig"][0]
+    elif name == "reuse_edit":
+        return apply_edit(op, built, probes)
+    elif name == "overlap":
+        return apply_overlap(op, built, probes)["label"]
     elif name in ("strategy", "example", "model_example"):
         import hypothesis
         with warnings.catch_warnings():
@@ -271,3 +365,417 @@ def _example(strategy):
         got.append(x)
     draw()
     return got[0] if got else None
+
+
+# --------------------------------------------------------------------------
+# live data objects: the SAME frame / series object meets the SAME schema again
+# --------------------------------------------------------------------------
+POOL_MAX = 12
+
+
+def reset_pool(built, probes):
+    """One live (never cloned) object per probe; results of validations and
+    the ``.data`` of raised errors join the pool as the history goes on."""
+    built.pool = [{"tag": f"probe{j}:{tag}", "origin": "probe", "obj": G.clone(frame),
+                   "met": 0, "marks": []}
+                  for j, (tag, frame) in enumerate(probes)]
+    built.pool_last = None
+    built.last_overlap = None
+
+
+def _pick_slot(built, op):
+    pool = built.pool
+    pref = op.get("prefer", "any")
+    cand = list(range(len(pool)))
+    if pref == "last" and built.pool_last is not None and built.pool_last < len(pool):
+        return built.pool_last
+    if pref == "met":
+        cand = [i for i in cand if pool[i]["met"]] or cand
+    elif pref in ("derived", "last"):
+        cand = [i for i in cand if pool[i]["origin"] != "probe"] or \
+               [i for i in cand if pool[i]["met"]] or cand
+    elif pref == "probe":
+        cand = [i for i in cand if pool[i]["origin"] == "probe"] or cand
+    return cand[op["slot"] % len(cand)]
+
+
+def _push(built, entry):
+    pool = built.pool
+    if len(pool) >= POOL_MAX:
+        # evict the oldest derived object (the probe objects stay)
+        for i, e in enumerate(pool):
+            if e["origin"] != "probe":
+                del pool[i]
+                if built.pool_last is not None:
+                    built.pool_last = None if built.pool_last == i else (
+                        built.pool_last - 1 if built.pool_last > i else built.pool_last)
+                break
+    pool.append(entry)
+    return len(pool) - 1
+
+
+def _is_data(x):
+    import pandas as pd
+    if isinstance(x, (pd.DataFrame, pd.Series)):
+        return True
+    try:
+        import polars as pl
+        return isinstance(x, (pl.DataFrame, pl.LazyFrame))
+    except ImportError:
+        return False
+
+
+class _Route:
+    """Adapter: every public route into ``schema.validate`` looks like validate."""
+
+    def __init__(self, fn):
+        self.validate = fn
+
+
+def _route(via, built_like, backend):
+    """(object with .validate(obj, **kw)) for one public validation route of
+    ``built_like`` (the schema under observation or a pristine twin)."""
+    S = built_like.schema
+    if via == "validate":
+        return S
+    if via == "call":
+        return _Route(lambda obj, **kw: S(obj, **kw))
+    if via == "model_validate":
+        return _Route(lambda obj, **kw: built_like.model.validate(obj, **kw))
+    pa = _pa(backend)
+    if via == "check_input":
+        return _Route(lambda obj, **kw: pa.check_input(S, **kw)(lambda df: df)(obj))
+    if via == "check_output":
+        return _Route(lambda obj, **kw: pa.check_output(S, **kw)(lambda df: df)(obj))
+    if via == "check_types":
+        if backend == "polars":
+            from pandera.typing.polars import DataFrame
+        else:
+            from pandera.typing import DataFrame
+        M = built_like.model
+
+        def run(obj, **kw):
+            def f(df):
+                return df
+            f.__annotations__ = {"df": DataFrame[M], "return": DataFrame[M]}
+            return pa.check_types(**kw)(f)(obj)
+        return _Route(run)
+    raise ValueError(via)
+
+
+def _sig(out):
+    """Verdict signature (same notion as the VER monitor of the check)."""
+    import hashlib
+    from . import snap as SN
+    if out.kind == "ok":
+        return ["ok", hashlib.sha1(repr(SN.snap(out.result)).encode()).hexdigest()[:12]]
+    if out.kind == "exc":
+        return ["exc", type(out.exc).__name__]
+    errs = sorted({(e.reason, str(e.column), str(e.check)) for e in out.errors})
+    return [out.kind, [list(e) for e in errs]]
+
+
+def apply_reuse(op, built, probes, twin=None):
+    """Validate a live object of the pool through one public route.  When a
+    pristine ``twin`` (fresh build of the same spec) is given, the same call is
+    made with the twin on a fresh deep copy of the object's content as it was
+    right before the call; both verdict signatures are returned."""
+    from . import harness as H
+    if getattr(built, "pool", None) is None:
+        reset_pool(built, probes)
+    spec = built.spec
+    i = _pick_slot(built, op)
+    ent = built.pool[i]
+    obj = ent["obj"]
+    kw = {k: op[k] for k in ("lazy", "head", "tail", "sample", "random_state",
+                             "inplace") if k in op}
+    before = G.clone(obj)
+    info = {"slot": i, "tag": ent["tag"], "origin": ent["origin"], "met": ent["met"],
+            "marks": list(ent["marks"]), "via": op["via"], "kwargs": dict(kw)}
+    out = H.run_validate(_route(op["via"], built, spec["backend"]), obj, **kw)
+    info["sig"] = _sig(out)
+    if twin is not None:
+        tout = H.run_validate(_route(op["via"], twin, spec["backend"]), before, **kw)
+        info["twin_sig"] = _sig(tout)
+    # bookkeeping: what this object has been through
+    ent["met"] += 1
+    sub = any(k in kw for k in ("head", "tail", "sample"))
+    ent["marks"].append(("ok" if out.kind == "ok" else "failed" if out.kind != "exc"
+                         else "exc") + (":inplace" if kw.get("inplace") else "")
+                        + (":subsample" if sub else ""))
+    del ent["marks"][:-6]
+    built.pool_last = i
+    derived = None
+    if out.kind == "ok" and _is_data(out.result) and out.result is not obj:
+        derived = ("result", out.result)
+    elif out.kind in ("SchemaError", "SchemaErrors"):
+        d = getattr(out.exc, "data", None)
+        if _is_data(d) and d is not obj and type(d) is type(obj):
+            derived = ("error.data", d)
+    if derived is not None:
+        built.pool_last = _push(built, {
+            "tag": f"{derived[0]}<-{ent['tag']}"[:80], "origin": derived[0],
+            "obj": derived[1], "met": 1, "marks": [ent["marks"][-1]]})
+        info["pushed"] = derived[0]
+    return info
+
+
+def apply_edit(op, built, probes):
+    """The user edits a live object in place between two validations."""
+    import pandas as pd
+    if getattr(built, "pool", None) is None:
+        reset_pool(built, probes)
+    spec = built.spec
+    ent = built.pool[_pick_slot(built, op)]
+    obj = ent["obj"]
+    if not isinstance(obj, (pd.DataFrame, pd.Series)) or len(obj) == 0:
+        return "n/a"
+    by_label = dict(G.data_columns(spec))
+    r = op["pick"] % len(obj)
+    if isinstance(obj, pd.Series):
+        col, c = spec["columns"][0], None
+    else:
+        if obj.shape[1] == 0:
+            return "n/a"
+        c = (op["pick"] // 7) % obj.shape[1]
+        col = by_label.get(obj.columns[c])
+    if op["how"] == "null":
+        v = None
+    elif col is None:
+        v = -5
+    elif op["how"] == "good":
+        v = G._values(col["dtype"], G.POOL[col["dtype"]])[0]
+    else:
+        bads = [k["bad"] for k in col["checks"] if k.get("bad") is not None]
+        v = bads[op["pick"] % len(bads)] if bads else \
+            {"str": "zz", "dt": "1999-01-01", "dtz": "1999-01-01"}.get(col["dtype"], -5)
+        if col["dtype"] in ("dt", "dtz") and isinstance(v, str):
+            v = G._values(col["dtype"], [v])[0]
+    if c is None:
+        obj.iloc[r] = v
+    else:
+        obj.iloc[r, c] = v
+    ent["marks"].append(f"edited:{op['how']}")
+    del ent["marks"][:-6]
+    built.pool_last = built.pool.index(ent)
+    return f"edited:{op['how']}"
+
+
+# --------------------------------------------------------------------------
+# two overlapping validations of ONE schema object (scheduler of pvm/c07_sched)
+# --------------------------------------------------------------------------
+class SharedState:
+    """Cheap view (no pandera code is run) of the attributes of the schema, its
+    components, their checks and parsers: the identity of every attribute value
+    and of every entry of the containers that hold them.  Rebinding an
+    attribute, adding / removing a dict key or list entry changes the view.
+    Used only to FIND the places where a running call has the shared schema
+    temporarily modified, never to judge."""
+
+    def __init__(self, schema):
+        cs = []
+
+        def add(o):
+            d = getattr(o, "__dict__", None)
+            if isinstance(d, dict):
+                cs.append(d)
+                for v in list(d.values()):
+                    if isinstance(v, (dict, list)):
+                        cs.append(v)
+            return d or {}
+
+        d = add(schema)
+        comps = []
+        cols = d.get("columns")
+        if isinstance(cols, dict):
+            comps += list(cols.values())
+        ix = d.get("index")
+        if ix is not None:
+            comps.append(ix)
+            comps += list(getattr(ix, "__dict__", {}).get("indexes") or [])
+        for c in [schema] + comps:
+            dc = add(c) if c is not schema else d
+            for attr in ("checks", "parsers", "_checks", "_parsers"):
+                for chk in (dc.get(attr) or []):
+                    add(chk)
+        self.containers = cs
+
+    def state(self):
+        return [tuple(map(id, c.values())) if isinstance(c, dict) else tuple(map(id, c))
+                for c in self.containers]
+
+
+def _where(prefix):
+    """(code object, line) of the pandera source line about to run in this
+    thread (the caller is a policy called from the scheduler's LINE callback:
+    policy.at_yield <- _yield_point <- _line <- pandera frame)."""
+    import sys
+    f = sys._getframe(4)
+    if not f.f_code.co_filename.startswith(prefix):
+        f = sys._getframe(1)
+        while f is not None and not f.f_code.co_filename.startswith(prefix):
+            f = f.f_back
+        if f is None:
+            return (None, 0)
+    return (f.f_code, f.f_lineno)
+
+
+def _describe(loc, prefix):
+    code, line = loc
+    if code is None:
+        return ["?", 0, "?"]
+    return [code.co_filename[len(prefix):], line, code.co_name]
+
+
+class _Scout:
+    """Policy for a solo run: logs every yield point (pandera source line about
+    to run) and whether the shared schema differs from its state at the start."""
+    name = "scout"
+
+    def __init__(self, schema, prefix):
+        self.schema, self.prefix = schema, prefix
+        self.view = SharedState(schema)
+        self.base = self.view.state()
+        self.visits, self.log, self.dirty = {}, [], []
+
+    def start(self, n):
+        return 0
+
+    def at_yield(self, tid, local_no, step, live):
+        code, line = _where(self.prefix)
+        key = (id(code), line)
+        n = self.visits[key] = self.visits.get(key, 0) + 1
+        self.log.append((code, line, n))
+        if self.view.state() != self.base:
+            self.dirty.append((code, line, n))
+        return tid
+
+    def on_finish(self, tid, live):
+        return live[0]
+
+    def describe(self):
+        return {"policy": "scout"}
+
+
+class _ParkAt:
+    """A runs to its n-th visit of source line L and is parked there, B runs to
+    ITS n-th visit of L, A completes, B completes: both calls are inside the
+    same region of pandera at the same time (enter-A, enter-B, leave-A,
+    leave-B)."""
+    name = "park-at"
+
+    def __init__(self, target, prefix):
+        self.target, self.prefix = target, prefix
+        self.count = [0, 0]
+        self.parked = [False, False]
+
+    def start(self, n):
+        return 0
+
+    def at_yield(self, tid, local_no, step, live):
+        if self.target is None or self.parked[tid] or tid > 1:
+            return tid
+        if tid == 1 and not self.parked[0]:
+            return tid
+        code, line = _where(self.prefix)
+        if line != self.target[1] or code is not self.target[0]:
+            return tid
+        self.count[tid] += 1
+        if self.count[tid] != self.target[2]:
+            return tid
+        other = 1 - tid
+        if other not in live:
+            return tid
+        self.parked[tid] = True
+        return other
+
+    def on_finish(self, tid, live):
+        return live[0]
+
+    def describe(self):
+        return {"policy": "park-at",
+                "target": None if self.target is None else
+                _describe(self.target[:2], self.prefix) + [self.target[2]]}
+
+
+def apply_overlap(op, built, probes):
+    """Scout one validation solo (where is the schema temporarily modified?),
+    then run two validations of the same schema object so that both are inside
+    such a region (or, when there is none, at one seeded source line) at the
+    same time.  Returns a dict; ``finished`` False means the schedule did not
+    complete and nothing about the schema may be judged."""
+    from . import env
+    from .c07_sched import Scheduler
+    S = built.schema
+    spec = built.spec
+    prefix = env.REPO.rstrip("/") + "/pandera/"
+    frames = [G.clone(probes[op["probe"]][1]), G.clone(probes[op["probe2"]][1])]
+    kws = [{"lazy": op["lazy"]}, {"lazy": op["lazy2"]}]
+    what = op.get("what", "validate")
+    twin = G.build(spec).schema if what == "eq_twin" else None
+
+    def call(frame, kw):
+        if what == "validate":
+            S.validate(frame, **kw)
+        elif what == "coerce_dtype":
+            S.coerce_dtype(frame)
+        elif what == "get_dtypes":
+            S.get_dtypes(frame)
+        elif what == "to_yaml":
+            S.to_yaml()
+        elif what == "to_json":
+            S.to_json()
+        elif what == "to_script":
+            S.to_script()
+        elif what == "statistics":
+            import pandera.schema_statistics as ss
+            if spec["kind"] in ("frame", "model"):
+                ss.get_dataframe_schema_statistics(S)
+            else:
+                ss.get_series_schema_statistics(S)
+        elif what == "str":
+            str(S)
+        elif what == "deepcopy":
+            copy.deepcopy(S)
+        elif what == "eq_twin":
+            S == twin
+        else:
+            raise ValueError(what)
+
+    def thunk(frame, kw):
+        def run():
+            try:
+                call(frame, kw)
+                return "ok"
+            except Exception as e:  # noqa: BLE001 - recorded, not judged
+                return type(e).__name__
+        return run
+
+    info = {"finished": False, "label": "not-finished"}
+    with Scheduler(prefix) as sched:
+        scout = _Scout(S, prefix)
+        r0 = sched.run([thunk(G.clone(frames[0]), kws[0])], scout, timeout=60.0)
+        if r0.status != "ok":
+            built.last_overlap = info
+            return info
+        if scout.dirty:
+            target = scout.dirty[op["w"] % len(scout.dirty)]
+        elif scout.log:
+            target = scout.log[op.get("k", 13) % len(scout.log)]
+        else:
+            target = None
+        pol = _ParkAt(target, prefix)
+        sched.restart()
+        r = sched.run([thunk(frames[0], kws[0]), thunk(frames[1], kws[1])], pol,
+                      timeout=60.0)
+    info = {"finished": r.status == "ok", "what": what, "yields_solo": len(scout.log),
+            "dirty_points": len(scout.dirty),
+            "target": None if target is None else
+            [_describe(target[:2], prefix), target[2]],
+            "targeted": "dirty-window" if scout.dirty else "seeded-line",
+            "parked": list(pol.parked), "outcomes": list(r.outcomes),
+            "switches": r.switches}
+    info["label"] = ("not-finished" if not info["finished"] else
+                     "both-inside" if all(pol.parked) else "serialised")
+    built.last_overlap = info
+    return info
